@@ -131,15 +131,19 @@ def scalJ (fullJ : Bool) (J : List Nat) (a : α) (x : Vec α) : Vec α :=
 /-- Loop state of `apply_masked_impl`.  `skip` abstracts the marker the code keeps in the `α`
     row: `skip[i]` ⇔ `std::isnan(α(i))` (set for a pair that is invalid on `J`; for a valid pair it
     is `isnan` of the `α` just computed).  It is rebuilt for every visited index on every call,
-    so it is not part of the persistent state. -/
+    so it is not part of the persistent state.  `need` is the local `need_γ`: the initial scaling
+    is still to be computed from the most recent pair valid on `J`. -/
 structure MaskAcc (α : Type) where
   al   : List α
   skip : List Bool
   q    : Vec α
   γ    : α
+  need : Bool
 
 /-- Body of the first loop of `apply_masked_impl` for ring index `i`.  The stored `ρ(i)` is
-    *not* written (repaired code: the `J`-restricted `ρ` is a local). -/
+    *not* written (repaired code: the `J`-restricted `ρ` is a local).  The scaling is taken from
+    the first visited pair that is valid on `J`, whatever its sign (repaired code: the marker is
+    the separate flag `need_γ`, not the sign of `γ`). -/
 def maskedRevStep (p : Params α) (fullJ : Bool) (J : List Nat) (slots : List (Slot α))
     (a : MaskAcc α) (i : Nat) : MaskAcc α :=
   let c := slots.getD i default
@@ -151,8 +155,10 @@ def maskedRevStep (p : Params α) (fullJ : Bool) (J : List Nat) (slots : List (S
   else
     let αi := ρ * dotJ fullJ J c.s a.q
     let q := axmyJ fullJ J αi c.y a.q
-    let γ := if a.γ < 0 then 1 / (ρ * dotJ fullJ J c.y c.y) else a.γ
-    { al := a.al.set i αi, skip := a.skip.set i (RealLike.isNaN αi), q := q, γ := γ }
+    let set := Gen.lbfgsMaskedSetGamma a.need a.γ
+    let γ := if set then Gen.lbfgsMaskedGammaOfPair ρ (dotJ fullJ J c.y c.y) else a.γ
+    let need := if set then false else a.need
+    { al := a.al.set i αi, skip := a.skip.set i (RealLike.isNaN αi), q := q, γ := γ, need := need }
 
 /-- Body of the second loop of `apply_masked_impl`: skipped pairs stay skipped, the
     `J`-restricted `ρ` is recomputed. -/
@@ -169,7 +175,8 @@ inductive MaskedResult (α : Type) where
   | threw                                     -- `std::invalid_argument` (CBFGS enabled)
   | done (st : State α) (q : Vec α) (ok : Bool)
 
-/-- `apply_masked_impl(q, γ, J)` (repaired: only the `α` row of the state changes). -/
+/-- `apply_masked_impl(q, γ, J)` (repaired: only the `α` row of the state changes; it fails only
+    when the scaling had to be computed and no pair is valid on `J` — `q` is then untouched). -/
 def applyMasked (p : Params α) (st : State α) (q : Vec α) (γ : α) (J : List Nat) :
     MaskedResult α :=
   if st.isEmpty then .done st q false
@@ -179,9 +186,9 @@ def applyMasked (p : Params α) (st : State α) (q : Vec α) (γ : α) (J : List
     if Gen.cbfgsEnabled p.cbfgsAlpha p.cbfgsEps then .threw
     else
       let a := st.revIdx.foldl (maskedRevStep p fullJ J st.slots)
-        ⟨st.al, List.replicate st.al.length false, q, γ⟩
+        ⟨st.al, List.replicate st.al.length false, q, γ, Gen.lbfgsMaskedNeedGamma γ⟩
       let st' := { st with al := a.al }
-      if a.γ < 0 then .done st' a.q false
+      if Gen.lbfgsMaskedFail a.need a.γ then .done st' a.q false
       else
         let q2 := scalJ fullJ J a.γ a.q
         let q3 := st.fwdIdx.foldl (maskedFwdStep fullJ J st.slots a.al a.skip) q2
